@@ -1389,3 +1389,42 @@ package ring
 //@   loop 0 lemma pow_one(q0); cong_refl(q0, W)
 //@   loop 0 lemma cong_intro(q, prev(q)*prev(q), 0 - (prev(q)*prev(q))/W, W); cong_mul(prev(q), pow(q0, pow2(prev(i))), prev(q), pow(q0, pow2(prev(i))), W); pow_add(q0, pow2(prev(i)), pow2(prev(i))); cong_trans(q, prev(q)*prev(q), pow(q0, pow2(prev(i)))*pow(q0, pow2(prev(i))), W)
 //@   loop 0 lemma cong_intro(mredconstant, prev(mredconstant)*prev(q), 0 - (prev(mredconstant)*prev(q))/W, W); cong_scale(mredconstant, prev(mredconstant)*prev(q), q0, W); cong_scale(prev(mredconstant)*q0, prev(q), prev(q), W); cong_trans(mredconstant*q0, prev(mredconstant)*prev(q)*q0, prev(q)*prev(q), W); cong_sym(q, prev(q)*prev(q), W); cong_trans(mredconstant*q0, prev(q)*prev(q), q, W)
+
+// ---- RNS scalar arithmetic (ring/scalar.go; property C15: the Lagrange coefficients are built with these) ----
+//@ func Ring.MFormRNSScalar
+//@   property C15
+//@   requires ringwf(r) && r.level < len(s1) && r.level < len(s2) && sameOrDisjoint(s1, s2)
+//@   requires forall(k, 0, r.level+1, bredpre(r.SubRings[k].Modulus, r.SubRings[k].BRedConstant[0], r.SubRings[k].BRedConstant[1]))
+//@   ensures forall(k, 0, r.level+1, s2[k] == MForm(old(s1[k]), r.SubRings[k].Modulus, r.SubRings[k].BRedConstant))
+//@   loop 0 invariant 0 <= i && i <= r.level+1
+//@   loop 0 invariant forall(k, 0, i, s2[k] == MForm(old(s1[k]), r.SubRings[k].Modulus, r.SubRings[k].BRedConstant))
+//@   loop 0 invariant forall(k, i, r.level+1, s1[k] == old(s1[k]))
+
+//@ func Ring.NegRNSScalar
+//@   property C15
+//@   requires ringwf(r) && r.level < len(s1) && r.level < len(s2) && sameOrDisjoint(s1, s2)
+//@   requires forall(k, 0, r.level+1, s1[k] <= r.SubRings[k].Modulus)
+//@   ensures forall(k, 0, r.level+1, s2[k] == r.SubRings[k].Modulus - old(s1[k]))
+//@   loop 0 invariant 0 <= i && i <= r.level+1
+//@   loop 0 invariant forall(k, 0, i, s2[k] == r.SubRings[k].Modulus - old(s1[k]))
+//@   loop 0 invariant forall(k, i, r.level+1, s1[k] == old(s1[k]))
+
+//@ func Ring.SubRNSScalar
+//@   property C15
+//@   requires ringwf(r) && r.level < len(s1) && r.level < len(s2) && r.level < len(sout)
+//@   requires sameOrDisjoint(s1, sout) && sameOrDisjoint(s2, sout)
+//@   requires forall(k, 0, r.level+1, s1[k] < r.SubRings[k].Modulus && s2[k] < r.SubRings[k].Modulus && r.SubRings[k].Modulus < 1<<63)
+//@   ensures forall(k, 0, r.level+1, sout[k] < r.SubRings[k].Modulus && sout[k] == ite(old(s2[k]) > old(s1[k]), old(s1[k]) + r.SubRings[k].Modulus - old(s2[k]), old(s1[k]) - old(s2[k])))
+//@   loop 0 invariant 0 <= i && i <= r.level+1
+//@   loop 0 invariant forall(k, 0, i, sout[k] < r.SubRings[k].Modulus && sout[k] == ite(old(s2[k]) > old(s1[k]), old(s1[k]) + r.SubRings[k].Modulus - old(s2[k]), old(s1[k]) - old(s2[k])))
+//@   loop 0 invariant forall(k, i, r.level+1, s1[k] == old(s1[k]) && s2[k] == old(s2[k]))
+
+//@ func Ring.MulRNSScalar
+//@   property C15
+//@   requires ringwf(r) && r.level < len(s1) && r.level < len(s2) && r.level < len(sout)
+//@   requires sameOrDisjoint(s1, sout) && sameOrDisjoint(s2, sout)
+//@   requires forall(k, 0, r.level+1, mredpre(r.SubRings[k].Modulus, r.SubRings[k].MRedConstant) && s1[k] < 2*r.SubRings[k].Modulus && s2[k] < 2*r.SubRings[k].Modulus && r.SubRings[k].Modulus < 1<<61)
+//@   ensures forall(k, 0, r.level+1, sout[k] == MRedLazy(old(s1[k]), old(s2[k]), r.SubRings[k].Modulus, r.SubRings[k].MRedConstant))
+//@   loop 0 invariant 0 <= i && i <= r.level+1
+//@   loop 0 invariant forall(k, 0, i, sout[k] == MRedLazy(old(s1[k]), old(s2[k]), r.SubRings[k].Modulus, r.SubRings[k].MRedConstant))
+//@   loop 0 invariant forall(k, i, r.level+1, s1[k] == old(s1[k]) && s2[k] == old(s2[k]))
